@@ -381,6 +381,172 @@ Proof.
       eapply resolve_head; [| |exact HP]; cbn; [apply Nat.eqb_refl|intros; now apply is_res_abort].
 Qed.
 
+(* ================= ordering core (mini C09/C12): old buffer entries are never disturbed ================= *)
+
+Definition old (c0 : nat) (l : list buffered) : list buffered := filter (fun b => Nat.ltb (b_cid b) c0) l.
+Definition others (t : nat) (l : list buffered) : list buffered := filter (fun b => negb (Nat.eqb (b_t b) t)) l.
+
+Arguments old : simpl never.
+Arguments others : simpl never.
+
+Lemma old_nil c0 : old c0 [] = [].
+Proof. reflexivity. Qed.
+
+Lemma others_cons_eq t b l : b_t b = t -> others t (b :: l) = others t l.
+Proof. intros E. unfold others. cbn [filter]. destruct (Nat.eqb_spec (b_t b) t); [reflexivity|congruence]. Qed.
+Lemma others_cons_ne t b l : b_t b <> t -> others t (b :: l) = b :: others t l.
+Proof. intros E. unfold others. cbn [filter]. destruct (Nat.eqb_spec (b_t b) t); [congruence|reflexivity]. Qed.
+Lemma old_cons c0 b l : old c0 (b :: l) = old c0 [b] ++ old c0 l.
+Proof. unfold old. cbn [filter]. destruct (Nat.ltb (b_cid b) c0); reflexivity. Qed.
+
+Lemma old_app c0 l1 l2 : old c0 (l1 ++ l2) = old c0 l1 ++ old c0 l2.
+Proof. apply filter_app. Qed.
+
+Lemma others_id A t l : held_ok A l -> ~ In t A -> others t l = l.
+Proof.
+  intros Hh Ht. unfold others. induction l as [|b l IH]; [reflexivity|].
+  assert (Hb : In (b_t b) A) by (apply Hh; now left).
+  cbn [filter]. destruct (Nat.eqb_spec (b_t b) t) as [E|E]; [exfalso; congruence|].
+  cbn [negb]. f_equal. apply IH. intros x Hx. apply Hh. now right.
+Qed.
+
+Lemma old_others c0 t l : old c0 (others t l) = others t (old c0 l).
+Proof.
+  unfold old, others in *. induction l as [|b l IH]; [reflexivity|].
+  cbn [filter]. destruct (negb (Nat.eqb (b_t b) t)) eqn:E1; destruct (Nat.ltb (b_cid b) c0) eqn:E2;
+    cbn [filter]; rewrite ?E1, ?E2; rewrite ?IH; reflexivity.
+Qed.
+
+Lemma held_ok_old A c0 l : held_ok A l -> held_ok A (old c0 l).
+Proof. intros H b Hb. apply filter_In in Hb. apply H. tauto. Qed.
+
+Definition OPost (i : instr) (c0 : nat) (s s' : st) : Prop :=
+  cidc s <= cidc s' /\
+  match i with
+  | IRunner t cid =>
+      old c0 (buffer s') =
+      old c0 (buffer s) ++ old c0 (match store s t with
+                                   | Taken => if Nat.eqb (counter s) 0 then [] else [{| b_t := t; b_cid := cid |}]
+                                   | _ => [] end)
+  | IReplay t pending kept => old c0 (buffer s') = old c0 (buffer s) ++ old c0 kept ++ old c0 (others t pending)
+  | _ => old c0 (buffer s') = old c0 (buffer s)
+  end.
+
+Lemma exec_old : forall fuel i A s s' c0,
+  exec fuel i s = Ok s' -> Pre i A s -> c0 <= cidc s ->
+  match i with IReplay t _ _ => ~ In t A | _ => True end ->
+  OPost i c0 s s'.
+Proof.
+  induction fuel as [|f IH]; intros i A s s' c0 E HP Hc0 Hx; [discriminate|].
+  pose proof (exec_sound _ _ _ _ _ E HP) as HPost.
+  destruct i as [a|l|t cid|t pending kept|]; cbn [exec] in E; cbn [Pre] in HP.
+  - destruct a as [t|t].
+    + cbn in E. apply (IH _ A _ _ c0) in E; cbn; auto.
+      * destruct E as [Hm Ho]. cbn [cidc add_log buffer store counter] in *. split; [lia|].
+        rewrite Ho.
+        assert (Hnew : Nat.ltb (cidc s) c0 = false) by (apply Nat.ltb_ge; lia).
+        destruct (store s t); try (rewrite old_nil; now rewrite app_nil_r).
+        destruct (Nat.eqb (counter s) 0); [rewrite old_nil; now rewrite app_nil_r|]. unfold old at 2; cbn [filter b_cid]; rewrite Hnew; now rewrite app_nil_r.
+    + inversion E; subst. split; cbn; auto.
+  - destruct l as [|a l].
+    + inversion E; subst. split; auto.
+    + unfold bind in E. destruct (exec f (IAct a) s) as [s1|] eqn:E1; [|discriminate].
+      pose proof (exec_sound _ _ _ _ _ E1 HP) as (I1&_&_).
+      apply (IH _ A _ _ c0) in E1; auto. destruct E1 as [M1 O1].
+      apply (IH _ A _ _ c0) in E; auto; [|lia]. destruct E as [M2 O2].
+      split; [lia|congruence].
+  - destruct HP as ((H1&H2&H3)&H4&H5).
+    destruct (store s t) as [| |n] eqn:Est.
+    + inversion E; subst; clear E. split; cbn [cidc add_log buffer]; auto. rewrite Est, old_nil. now rewrite app_nil_r.
+    + destruct (Nat.eqb (counter s) 0) eqn:Ez.
+      * inversion E; subst; clear E. split; cbn [cidc add_log buffer]; auto. rewrite Est, Ez, old_nil. now rewrite app_nil_r.
+      * inversion E; subst; clear E. split; cbn [cidc add_log buffer set_buffer]; auto. rewrite Est, Ez. now rewrite old_app.
+    + assert (HtA : ~ In t A). { intros Hin. destruct (H2 _ Hin); congruence. }
+      unfold bind in E.
+      match type of E with context [exec f (IActs ?sc) ?s0] =>
+        destruct (exec f (IActs sc) s0) as [s1|] eqn:E1; [|discriminate] end.
+      assert (PreBody : Pre (IActs (script t n)) (t :: A)
+                (add_log (set_counter (set_store s (upd (store s) t Taken)) (S (counter s))) (EvRunStart cid t n))).
+      { cbn [Pre]. split; [split; [|split]|split]; cbn.
+        - intros x Hx'. destruct (Nat.eq_dec x t) as [->|Hn]; [now left|].
+          rewrite upd_other in Hx' by auto. right; auto.
+        - intros x [<-|Hx']; [rewrite upd_same; auto|].
+          destruct (Nat.eq_dec x t) as [->|Hn]; [rewrite upd_same; auto|]. rewrite upd_other by auto. auto.
+        - intros _. lia.
+        - intros b Hb. right. auto.
+        - intros Hc. lia. }
+      pose proof (exec_sound _ _ _ _ _ E1 PreBody) as (((J1&J2&J3)&J4&J5)&K1&K0). cbn in K1, K0.
+      apply (IH _ (t :: A) _ _ c0) in E1; auto. destruct E1 as [M1 O1]. cbn [buffer set_buffer set_counter set_store add_log cidc] in M1, O1.
+      set (s2 := match store s1 t with Taken => set_store s1 (upd (store s1) t (Idle (S n))) | _ => s1 end) in E.
+      assert (Hs2c : counter s2 = counter s1) by (unfold s2; destruct (store s1 t); reflexivity).
+      assert (Hs2b : buffer s2 = buffer s1) by (unfold s2; destruct (store s1 t); reflexivity).
+      assert (Hs2i : cidc s2 = cidc s1) by (unfold s2; destruct (store s1 t); reflexivity).
+      assert (Hc1 : counter s1 >= 1) by (apply K1; lia).
+      assert (Hcore : InvCore A s2).
+      { unfold s2. destruct (store s1 t) eqn:Es1.
+        - split; [|split].
+          + intros x Hx'. destruct (J1 _ Hx') as [<-|]; [congruence|auto].
+          + intros x Hx'. apply J2. now right.
+          + intros _. lia.
+        - split; [|split]; cbn.
+          + intros x Hx'. destruct (Nat.eq_dec x t) as [->|Hn]; [rewrite upd_same in Hx'; discriminate|].
+            rewrite upd_other in Hx' by auto. destruct (J1 _ Hx') as [<-|]; [congruence|auto].
+          + intros x Hx'. assert (x <> t) by (intros ->; auto). rewrite upd_other by auto. apply J2. now right.
+          + intros _. lia.
+        - exfalso. destruct (J2 t (or_introl eq_refl)); congruence. }
+      match type of E with context [exec f (IReplay t ?q []) ?s0] =>
+        destruct (exec f (IReplay t q []) s0) as [s3|] eqn:E3; [|discriminate] end.
+      assert (PreRep : Pre (IReplay t (buffer (add_log s2 (EvRunEnd cid))) []) A (set_buffer (add_log s2 (EvRunEnd cid)) [])).
+      { cbn [Pre]. destruct Hcore as (C1&C2&C3).
+        split; [split; [|split]|split; [|split; [|split]]]; cbn; auto.
+        - apply held_ok_nil.
+        - intros b Hb. rewrite Hs2b in Hb. apply J4 in Hb. exact Hb.
+        - apply held_ok_nil.
+        - lia. }
+      pose proof (exec_sound _ _ _ _ _ E3 PreRep) as (I3&L1&L0). cbn in L1, L0.
+      apply (IH _ A _ _ c0) in E3; auto; [|cbn; lia].
+      destruct E3 as [M3 O3]. cbn [buffer set_buffer add_log cidc] in M3, O3. rewrite Hs2b in O3.
+      assert (Hfin : old c0 (buffer s3) = old c0 (buffer s)).
+      { rewrite O3. cbn [app]. rewrite old_others, O1.
+        apply others_id with (A := A); auto. apply held_ok_old. exact H4. }
+      destruct (Nat.eqb_spec (counter s) 0) as [Hz|Hnz].
+      * destruct (exec f IDiscard s3) as [s4|] eqn:E4; [|discriminate].
+        assert (HA : A = []). { destruct A; auto. exfalso. assert (counter s >= 1) by (apply H3; discriminate). lia. }
+        assert (PreD : Pre IDiscard A s3). { cbn [Pre]. split; [exact I3|split; auto]. apply L1. lia. }
+        apply (IH _ A _ _ c0) in E4; auto; [|lia]. destruct E4 as [M4 O4].
+        inversion E; subst s'; clear E. split; [cbn [cidc set_counter]; lia|].
+        cbn [buffer set_counter]. rewrite Est, old_nil, app_nil_r. congruence.
+      * inversion E; subst s'; clear E. split; [lia|]. rewrite Est, old_nil, app_nil_r. exact Hfin.
+  - destruct HP as ((H1&H2&H3)&Hb&Hp&Hk&Hc).
+    destruct pending as [|b pending].
+    + inversion E; subst; clear E. split; cbn; auto. rewrite old_app. now rewrite app_nil_r.
+    + destruct (Nat.eqb_spec (b_t b) t) as [Heq|Hne].
+      * unfold bind in E.
+        destruct (exec f (IRunner (b_t b) (b_cid b)) s) as [s1|] eqn:E1; [|discriminate].
+        assert (PreR : Pre (IRunner (b_t b) (b_cid b)) A s).
+        { cbn [Pre]. split; [split; [|split]|split]; auto. intros; lia. }
+        pose proof (exec_sound _ _ _ _ _ E1 PreR) as (((J1&J2&J3)&J4&J5)&K1&K0).
+        apply (IH _ A _ _ c0) in E1; auto. destruct E1 as [M1 O1].
+        assert (Hnt : store s (b_t b) <> Taken). { rewrite Heq. intros Ht. apply Hx. auto. }
+        assert (O1' : old c0 (buffer s1) = old c0 (buffer s)).
+        { rewrite O1. destruct (store s (b_t b)); try congruence; now rewrite app_nil_r. }
+        apply (IH _ A _ _ c0) in E; auto; [|cbn [Pre]|lia].
+        -- destruct E as [M2 O2]. split; [lia|]. rewrite O2, O1'. now rewrite others_cons_eq.
+        -- split; [split; [|split]|split; [|split; [|split]]]; auto;
+             try (intros b' Hb'; apply Hp; now right); try (apply K1; lia).
+      * apply (IH _ A _ _ c0) in E; auto.
+        -- destruct E as [M2 O2]. split; [lia|]. rewrite O2. rewrite others_cons_ne by auto.
+           rewrite old_app, (old_cons c0 b (others t pending)). rewrite <- !app_assoc. reflexivity.
+        -- cbn [Pre]. split; [split; [|split]|split; [|split; [|split]]]; auto.
+           ++ intros b' Hb'. apply Hp. now right.
+           ++ apply held_ok_app; auto. intros b' [<-|[]].
+              destruct (Hp b (or_introl eq_refl)) as [Heq|]; auto. congruence.
+  - destruct HP as (((H1&H2&H3)&H4&H5)&HA&Hc). subst A.
+    destruct (buffer s) as [|b rest] eqn:Eb.
+    + inversion E; subst; clear E. split; auto.
+    + exfalso. apply (H4 b). now left.
+Qed.
+
 End Prog.
 
 (* corollary: a top-level flush from a pristine state ends pristine (mini C11) *)
